@@ -76,9 +76,16 @@ Definition tick_alloc_capped (count per elem : N) : parser unit := fun b =>
 Definition tick_depth (d : N) : parser unit := fun b => (Ok (tt, b), mkCost 0 d).
 
 (* ---- raw byte access ------------------------------------------------------------------- *)
-(* the count may be as large as 2^31: compare in N before converting to nat *)
-Definition ntake (n : N) (b : bytes) : option (bytes * bytes) :=
-  if n <=? lenN b then Some (firstn (N.to_nat n) b, skipn (N.to_nat n) b) else None.
+(* split off exactly [n] bytes; the count may be as large as 2^31, so it is counted down in N
+   along the list (never converted to nat) and the length of the input is not computed.
+   ntake_spec (Proofs): = Some (firstn n b, skipn n b) when n <= length b, None otherwise *)
+Fixpoint ntake_aux (b : bytes) (n : N) (acc : bytes) : option (bytes * bytes) :=
+  if n =? 0 then Some (rev' acc, b)
+  else match b with
+       | [] => None
+       | x :: r => ntake_aux r (N.pred n) (x :: acc)
+       end.
+Definition ntake (n : N) (b : bytes) : option (bytes * bytes) := ntake_aux b n [].
 
 (* types::read_raw_bytes *)
 Definition read_raw (n : N) : parser bytes := fun b =>
@@ -152,6 +159,9 @@ Fixpoint repeat_f {A} (fuel : nat) (p : parser A) (n : N) : parser (list A) :=
        end.
 Definition repeatN {A} (p : parser A) (n : N) : parser (list A) :=
   fun b => repeat_f (S (length b)) p n b.
+(* the same loop for counts known to be small (u16 fields, numbers of parsed columns): the
+   count itself is the fuel, which is then never exhausted *)
+Definition repeatS {A} (p : parser A) (n : N) : parser (list A) := repeat_f (N.to_nat n) p n.
 
 (* element sizes used by the cost annotations (size_of on x86_64; pinned by the census and
    re-measured by the runner): String / Vec = 24 *)
@@ -159,7 +169,7 @@ Definition SZ_STRING : N := 24.
 
 (* read_string_list: Vec::with_capacity(len) then len strings *)
 Definition read_string_list : parser (list bytes) :=
-  len <- read_short ;; tick_alloc (len * SZ_STRING) ;;; repeatN read_string len.
+  len <- read_short ;; tick_alloc (len * SZ_STRING) ;;; repeatS read_string len.
 
 (* HashMap semantics of `v.insert(key, val)` in wire order: later value replaces, the entry keeps
    its place.  Entries are kept in first-insertion order (the canonical comparison sorts). *)
@@ -179,12 +189,12 @@ Definition SZ_MULTIMAP_ENTRY : N := 48.
 
 Definition read_bytes_map : parser (list (bytes * bytes)) :=
   len <- read_short ;; tick_alloc (len * SZ_PAYLOAD_ENTRY) ;;;
-  l <- repeatN (k <- read_string ;; v <- read_bytes ;; ret (k, v)) len ;;
+  l <- repeatS (k <- read_string ;; v <- read_bytes ;; ret (k, v)) len ;;
   ret (hm_of_list l).
 
 Definition read_string_multimap : parser (list (bytes * list bytes)) :=
   len <- read_short ;; tick_alloc (len * SZ_MULTIMAP_ENTRY) ;;;
-  l <- repeatN (k <- read_string ;; v <- read_string_list ;; ret (k, v)) len ;;
+  l <- repeatS (k <- read_string ;; v <- read_string_list ;; ret (k, v)) len ;;
   ret (hm_of_list l).
 
 (* read_uuid: 16 raw bytes *)
